@@ -74,7 +74,7 @@ pub struct HShape {
 }
 
 const KEEP_H: &[&str] = &[
-    "obs.call", "obs.ret", "link.done", "unlink.done", "drain.status", "status.set", "obs.sig_taken", "guard.cleanup",
+    "obs.call", "obs.ret", "obs.exit_begin", "link.done", "unlink.done", "drain.status", "status.set", "obs.sig_taken", "guard.cleanup",
     "term.kill", "take.done", "term.take", "guard.terminated", "guard.notified", "guard.supread", "guard.unlinked",
     "guard.done", "obs.exit_done",
 ];
@@ -161,10 +161,12 @@ pub fn one_run_h(shape: &HShape, ex: &mut Explorer, gen: &Value) -> (Vec<Value>,
                 match plan {
                     Plan::Idle => {}
                     Plan::Fail => {
+                        verif::emit("obs.exit_begin", 0, 0);
                         det.finish(evt);
                         exited = true;
                     }
                     Plan::Stop => {
+                        verif::emit("obs.exit_begin", 0, 0);
                         det.set_status(ActorStatus::Stopping);
                         verif::point("act.poll", 0, 0);
                         if det.try_recv_signal() {
@@ -207,12 +209,24 @@ pub fn one_run_h(shape: &HShape, ex: &mut Explorer, gen: &Value) -> (Vec<Value>,
                     if k > 0 {
                         verif::point("h.op", 0, k as i64);
                     }
-                    let call = |kind: &str, c: usize, s: Option<usize>| {
-                        verif::emit_kv("obs.call", 0, 0, vec![kvs("k", kind), kvs("c", &aname(c)), kvs("s", &s.map(aname).unwrap_or_else(|| "none".into())), kvi("r", 0)]);
+                    // every call / return also records the statuses the caller could read at that moment
+                    let note = |label: &str, kind: &str, c: usize, s: Option<usize>, r: i64| {
+                        verif::emit_kv(
+                            label,
+                            0,
+                            0,
+                            vec![
+                                kvs("k", kind),
+                                kvs("c", &aname(c)),
+                                kvs("s", &s.map(aname).unwrap_or_else(|| "none".into())),
+                                kvi("r", r),
+                                kvi("cst", cells[c].get_status() as i64),
+                                kvi("sst", s.map(|s| cells[s].get_status() as i64).unwrap_or(9)),
+                            ],
+                        );
                     };
-                    let ret = |kind: &str, c: usize, s: Option<usize>, r: i64| {
-                        verif::emit_kv("obs.ret", 0, 0, vec![kvs("k", kind), kvs("c", &aname(c)), kvs("s", &s.map(aname).unwrap_or_else(|| "none".into())), kvi("r", r)]);
-                    };
+                    let call = |kind: &str, c: usize, s: Option<usize>| note("obs.call", kind, c, s, 0);
+                    let ret = |kind: &str, c: usize, s: Option<usize>, r: i64| note("obs.ret", kind, c, s, r);
                     match *op {
                         EOp::Link(c, s) => {
                             call("link", c, Some(s));
@@ -267,11 +281,18 @@ pub fn one_run_h(shape: &HShape, ex: &mut Explorer, gen: &Value) -> (Vec<Value>,
     if !missing {
         evs.push(json!({"a": "obs.end", "who": "drv", "obj": "", "d": 0, "t": 0, "q": 0, "fin": fin}));
     }
-    // tidy up: run the cleanup of every cell that is still alive (events are not part of the run)
-    for d in dets.iter_mut() {
+    // tidy up (not part of the run): cells that did not exit are taken out of the registries by
+    // publishing Stopped and are then leaked together with their guard -- running terminate() here
+    // could spin for ever on a child-set cycle if the code under test fails to close child sets
+    verif::enable(false);
+    for mut d in dets.drain(..) {
         d.drop_ports();
-        d.drop_guard();
+        if d.cell.get_status() != ActorStatus::Stopped {
+            d.set_status(ActorStatus::Stopped);
+            std::mem::forget(d);
+        }
     }
+    verif::enable(true);
     let _ = verif::take_events();
     let meta = json!({"family": "suptree-h", "gen": gen, "shape": format!("{shape:?}"), "sched": ex.sched, "steps": run.steps,
                       "overrun": run.overrun, "init": init});
@@ -394,6 +415,8 @@ fn op_ev(a: &str, who: &str, t: u64, k: &str, c: &str, s: &str, r: i64) -> Value
     m.insert("c".into(), json!(c));
     m.insert("s".into(), json!(s));
     m.insert("r".into(), json!(r));
+    m.insert("cst".into(), json!(9));
+    m.insert("sst".into(), json!(9));
     Value::Object(m)
 }
 
@@ -472,6 +495,7 @@ pub fn one_run_t(sc: &lc::Scenario, ex: &mut Explorer, gen: &Value) -> (Vec<Valu
     let mut spawning: HashMap<String, bool> = HashMap::new(); // child -> spawn operation open
     let mut exiting: HashMap<String, String> = HashMap::new(); // raw who -> actor whose sweep / cleanup runs there
     let mut drain_open: HashMap<String, String> = HashMap::new(); // raw who -> drain target
+    let mut begun: std::collections::HashSet<String> = Default::default(); // actors whose exit has been announced
     for e in &run.events {
         let a = e.a.as_str();
         let raw = e.who.clone();
@@ -551,10 +575,24 @@ pub fn one_run_t(sc: &lc::Scenario, ex: &mut Explorer, gen: &Value) -> (Vec<Valu
                     },
                     _ => continue,
                 };
+                // observations derived from the exit's own brackets: the task picked up its Kill /
+                // is about to end on its own / is gone
+                let begins = a == "guard.cleanup" || (a == "status.set" && e.d == ActorStatus::Stopping as i64);
+                if a == "sig.handled" {
+                    begun.insert(objn.clone());
+                    evs.push(Value::Object(base("obs.sig_taken", &objn, "", 0, e.t)));
+                    continue;
+                }
+                if begins && begun.insert(objn.clone()) {
+                    evs.push(Value::Object(base("obs.exit_begin", &objn, "", 0, e.t)));
+                }
                 let mut j = ev_json(e, &names);
                 fix_fields(e, &mut j, &names);
                 j.as_object_mut().unwrap().insert("who".into(), json!(who));
                 evs.push(j);
+                if a == "guard.done" {
+                    evs.push(Value::Object(base("obs.exit_done", &objn, "", 0, e.t)));
+                }
             }
             _ => {}
         }
